@@ -161,7 +161,16 @@ def register_load(reg):
 		types={'path': Str},
 		raises={'SignaturesFileError': 'not header_is_hdf5(path) or not has_marker(path)'},
 		may_raise=['ValueError', 'KeyError'],
+		# C18: with no caller-supplied h5py arguments nothing is opened in a mode that could create, truncate or modify a file
+		ensures=['implies(len(kw) == 0, not opened_for_write())'],
 	)
+
+
+def opened_for_write(pe):
+	return pe.st.ghosts['fs_write']
+
+
+NS['opened_for_write'] = opened_for_write
 
 
 def group_has_marker(pe, group):
